@@ -366,6 +366,7 @@ package jsonschema
 //@ contract (*resolver).resolve(r, s, baseURI)
 //@   requires new(r) && r.loaded != nil && new(r.loaded) && baseURI != nil
 //@   noframe
+//@   atcall[C03] "(*resolver).resolveRefs" precached: new(r.loaded) && has(r.loaded, urlstr(baseURI)) && r.loaded[urlstr(baseURI)] != nil
 //@   ensures[C03] cached: result1 == nil ==> result0 != nil && new(r.loaded) && has(r.loaded, urlstr(baseURI)) && r.loaded[urlstr(baseURI)] != nil
 //@   ensures[C03] mono: loadedKept(r)
 
@@ -449,6 +450,7 @@ package jsonschema
 
 //@ contract dereferenceJSONPointer(s, sptr)
 //@   pure
+//@   reject[C17] "the JSON Pointer array segment" kind(v) == 17 || kind(v) == 23
 //@   ensures[C17,C10] result1 == nil ==> true
 //@   loop "range segments"
 //@     invariant valid: kind(v) != 0
